@@ -59,6 +59,11 @@ class ElabPass:
     Subclasses should not need to know there is such a cache, and should not need to access it directly.
     """
 
+    # Modules whose visit by *any* pass raised, and the exception it raised.
+    # Shared by all pass classes: a Module left half-rewritten by one pass must not be picked up by another,
+    # e.g. by the pass of which the failing one was a customized sub-class.
+    FAILED: Dict[Module, Exception] = dict()
+
     # The class-level cache.
     # Each sub-class gets its own.
     # The base-class does not have one, should be the only `ElabPass` with `CLASS_CACHE=None`.
@@ -105,15 +110,16 @@ class ElabPass:
         `elaborate_module_base` instead.
         """
 
-        # Check if this has already been elaborated by this pass/ class
-        if module in self.CLASS_LEVEL_CACHE.done:
+        # Check if this has already been elaborated by this pass/ class,
+        # or altogether, potentially by other pass classes than those now in use.
+        if module in self.CLASS_LEVEL_CACHE.done or module._elaborated is not None:
             return module
 
-        # A Module whose earlier visit by this pass failed - or any of whose dependencies' did -
+        # A Module whose earlier visit by a pass failed - or any of whose dependencies' did -
         # may have been left half-rewritten. Report that original error again, rather than visiting,
         # and potentially exporting, it in that state.
-        if module in self.CLASS_LEVEL_CACHE.failed:
-            raise self.CLASS_LEVEL_CACHE.failed[module]
+        if module in ElabPass.FAILED:
+            raise ElabPass.FAILED[module]
 
         # Add `module` to our elab stack.
         # This is helpful even if (especially if) we find it's a circular dependency next.
@@ -148,6 +154,7 @@ class ElabPass:
                 # An interruption such as `KeyboardInterrupt`. Not to be raised again by later attempts.
                 e = RuntimeError(f"Elaboration of {module} was interrupted by {type(e).__name__}")
             self.CLASS_LEVEL_CACHE.failed[module] = e
+            ElabPass.FAILED[module] = e
             raise
 
         # Pop the hierarchy-stack and return it
